@@ -255,3 +255,33 @@ func checkCompleteCarriesVerdict(p *load.Program, r *kit.Report, rule string) {
 	}
 	r.Check(bad == "", rule, "HandleBlock/complete-carries-verdict", pos, "nil reaches Complete only as handleBlock's result for the requested hash", bad)
 }
+
+// checkErrorStopsManager: a non-nil result of processRequest means the request got NO terminal
+// signal (every signalling path of processRequest returns nil — MUST-PASS). BlockManager.Run must
+// therefore stop on it: going on to the next request leaves the failed one with zero terminal
+// signals while the manager keeps running, and its requester waits for ever.
+func checkErrorStopsManager(p *load.Program, r *kit.Report, rule string) {
+	f := fn(p, r, rule, R, "BlockManager.Run")
+	if f == nil {
+		return
+	}
+	calls := kit.CallsTo(f, R+".BlockManager.processRequest")
+	pos := posOf(p, f.Blocks[0].Instrs[0])
+	if len(calls) != 1 {
+		r.Bad(rule, "BlockManager.Run/error-stops-manager", pos, "expected one processRequest call, found %d", len(calls))
+		return
+	}
+	call := calls[0].(*ssa.Call)
+	eg := errNilGuards(f, call)
+	bad := ""
+	if len(eg) == 0 {
+		bad = "the result of processRequest is not tested"
+	}
+	for _, e := range edgesOf(eg, false) {
+		rr := kit.Reach(f, []kit.Pt{kit.EdgeStart(e)}, kit.Opts{})
+		if rr.Has(call) {
+			bad = "after processRequest failed (the request received no terminal signal) Run goes on to the next request (" + rr.PathTo(call, p.Pos) + "): the failed request's requester waits for ever while the manager keeps running"
+		}
+	}
+	r.Check(bad == "", rule, "BlockManager.Run/error-stops-manager", posOf(p, call), "a processRequest error ends Run (no further request is processed)", bad)
+}
